@@ -141,7 +141,28 @@ func c18Run(e *Env, keepalive bool) {
 			nonce++
 			e.Fault("msg.received")
 			m := &WMsg{Type: TNON, Code: 1, MID: w.NextPeerMID(), Token: []byte{0x55, byte(nonce)}, Opts: []WOpt{{Num: OptURIPath, Val: []byte("m")}}}
-			deliver(m, fmt.Sprintf("message #%d", nonce), 1)
+			label := fmt.Sprintf("message #%d", nonce)
+			// whatever the peer sends is a sign of life: a request, a ping of its own, a stray acknowledgement or reset
+			switch t.Weighted(4, 2, 1, 1) {
+			case 1:
+				e.Probe("received.peerPing")
+				if IsDatagram(tr) {
+					m, label = &WMsg{Type: TCON, Code: 0, MID: w.NextPeerMID()}, fmt.Sprintf("ping of the peer #%d", nonce)
+				} else {
+					m, label = &WMsg{Code: 0xe2, Token: []byte{0x56, byte(nonce)}}, fmt.Sprintf("ping of the peer #%d", nonce)
+				}
+			case 2:
+				if IsDatagram(tr) {
+					e.Probe("received.strayAck")
+					m, label = &WMsg{Type: TACK, Code: 0, MID: w.NextPeerMID()}, fmt.Sprintf("stray empty acknowledgement #%d", nonce)
+				}
+			case 3:
+				if IsDatagram(tr) {
+					e.Probe("received.strayReset")
+					m, label = &WMsg{Type: TRST, Code: 0, MID: w.NextPeerMID()}, fmt.Sprintf("stray reset #%d", nonce)
+				}
+			}
+			deliver(m, label, 1)
 		}})
 		if keepalive && len(pings) > 0 {
 			evs = append(evs, Event{Label: "pong", W: 3, Do: func() {
